@@ -200,6 +200,16 @@ func (c *Ctx) c14Import() {
 			if rt == nil {
 				continue
 			}
+			// the query is installed into the URL before the request is built from it
+			installed := false
+			for _, ev := range g.events {
+				if ev.Kind == pw.EvFieldWrite && ev.Field != nil && ev.Field.Name() == "RawQuery" && ev.Value != nil && ev.Value.Kind == pw.KCall && ev.Value.Ev.Role == "Std:url.Values.Encode" {
+					installed = true
+				}
+				if ev.Kind == pw.EvCall && ev.Role == "Std:http.NewRequest" && !installed {
+					r.Bad("R14.2", "HTTPTransfer.Import", "query-not-sent", c.Pos(ev.Pos), "the request is built before (or without) installing the name/typesHash query into the URL", shortTrace(p))
+				}
+			}
 			// what is sent
 			if setName == nil || setName.Args[1].Kind != pw.KRangeKey {
 				r.Bad("R14.2", "HTTPTransfer.Import", "name-param", c.Pos(rt.Pos), "the request does not carry the iterated cache's own name", shortTrace(p))
@@ -360,6 +370,41 @@ func (c *Ctx) c14Register() {
 			fresh := hasher != nil && hasher.Kind == pw.KCall && hasher.Ev != nil && idx[hasher.Ev] > loopStart[g]
 			if !fresh {
 				r.Bad("R14.3", "GobRegister", "shared-hasher", c.Pos(hashWrites[0].Pos), "the fingerprint hasher is not created per value: a type's fingerprint then depends on the values registered before it", shortTrace(p))
+			}
+			if t, known := p.Truth(setInserts[0].Value); !known || !t {
+				r.Bad("R14.3", "GobRegister", "type-not-recorded", c.Pos(setInserts[0].Pos), "the type is not recorded as registered (true): a repeated registration would change the hash again", shortTrace(p))
+			}
+			registered := false
+			identity := false
+			for _, ev := range g.events {
+				if ev.Kind == pw.EvCall && ev.Role == "Std:gob.Register" {
+					registered = true
+				}
+				// h.Write([]byte(t.PkgPath() + t.String())): the fingerprint includes the type's identity
+				if ev.Kind == pw.EvCall && ev.Callee != nil && ev.Callee.Name() == "Write" && ev.Recv == hasher && len(ev.Args) == 1 {
+					names := map[string]bool{}
+					var walk func(v *pw.Val, d int)
+					walk = func(v *pw.Val, d int) {
+						if v == nil || d > 6 {
+							return
+						}
+						if v.Kind == pw.KCall && v.Ev != nil && v.Ev.Callee != nil && v.Ev.Recv == typ {
+							names[v.Ev.Callee.Name()] = true
+						}
+						walk(v.Src, d+1)
+						walk(v.Src2, d+1)
+					}
+					walk(ev.Args[0], 0)
+					if names["PkgPath"] && names["String"] {
+						identity = true
+					}
+				}
+			}
+			if !registered {
+				r.Bad("R14.3", "GobRegister", "not-registered-with-gob", c.Pos(g.begin.Pos), "a new type is fingerprinted but not registered with encoding/gob: the transfer of such values fails although the hashes match", shortTrace(p))
+			}
+			if !identity {
+				r.Bad("R14.3", "GobRegister", "fingerprint-without-identity", c.Pos(g.begin.Pos), "the fingerprint does not include the type's package path and name: structurally equal types cancel each other out (adding a type may leave the hash unchanged)", shortTrace(p))
 			}
 			// the fingerprint covers this type
 			fed := false
